@@ -57,6 +57,8 @@ class BuiltinMixin:
             return "none"
         if isinstance(v, VTuple):
             return "tuple"
+        if isinstance(v, VRange):
+            return "range"
         if isinstance(v, VSeq):
             return v.kind
         if isinstance(v, VRef):
@@ -260,13 +262,17 @@ class BuiltinMixin:
                 return [(st, VStr(z3.Function("repr_str", S, S)(v.t)))]
             return [(st, v)]
         if isinstance(v, VInt):
-            return [(st, VStr(z3.If(v.t < 0, z3.Concat(z3.StringVal("-"), z3.IntToStr(-v.t)), z3.IntToStr(v.t))))]
+            r = z3.If(v.t < 0, z3.Concat(z3.StringVal("-"), z3.IntToStr(-v.t)), z3.IntToStr(v.t))
+            st.assume(z3.Function("decimal_wellformed", S, B)(r))  # str(int) is valid Decimal text
+            return [(st, VStr(r))]
         if isinstance(v, VBool):
             return [(st, VStr(z3.If(v.t, z3.StringVal("True"), z3.StringVal("False"))))]
         if isinstance(v, VNone):
             return [(st, VStr(z3.StringVal("None")))]
         if isinstance(v, VFlt):
-            return [(st, VStr(z3.Function("str_of_flt", Flt, S)(v.t)))]
+            r = z3.Function("str_of_flt", Flt, S)(v.t)
+            st.assume(z3.Function("decimal_wellformed", S, B)(r))  # str(float) ('1.5','inf','nan') is valid Decimal text
+            return [(st, VStr(r))]
         if isinstance(v, (VU, VOpaque)):
             t = v.t
             f = repr_of_u if conv == "repr" else str_of_u
@@ -387,7 +393,9 @@ class BuiltinMixin:
         if isinstance(v, (VU, VOpaque)):
             out = []
             for s, tv in self.split_tags(st, v):
-                if isinstance(tv, (VU, VOpaque)):
+                if isinstance(tv, (VU, VOpaque)) and self.is_decimal(tv):
+                    out.append((s, VFlt(z3.Function("flt_of_ref", U, Flt)(tv.t))))
+                elif isinstance(tv, (VU, VOpaque)):
                     out.extend(self.opaque_call(s, "float(ref)", [tv], may_raise=("TypeError", "ValueError"), pure=True))
                     o = out.pop()
                     out.append((o[0], VFlt(z3.Function("flt_of_ref", U, Flt)(tv.t))))
@@ -404,6 +412,8 @@ class BuiltinMixin:
             return [(st, VInt(z3.Length(v.t)))]
         if isinstance(v, VTuple):
             return [(st, VInt(z3.IntVal(len(v.items))))]
+        if isinstance(v, VRange):
+            return [(st, VInt(zmax(v.stop - v.start, z3.IntVal(0))))]
         if isinstance(v, VRef):
             h = st.deref(v)
             if isinstance(h, HList):
@@ -506,12 +516,19 @@ class BuiltinMixin:
         return self._minmax(st, args, kwargs, False)
 
     def b_abs(self, st, args, kwargs):
-        n = self.num_term(args[0])
-        if n is not None:
-            return [(st, VInt(z3.If(n < 0, -n, n)))]
-        if isinstance(args[0], VFlt):
-            return [(st, VFlt(z3.Function("flt_abs", Flt, Flt)(args[0].t)))]
-        raise Unsupported("abs")
+        def f(s, typed):
+            (v,) = typed
+            n = self.num_term(v)
+            if n is not None:
+                return [(s, VInt(z3.If(n < 0, -n, n)))]
+            if isinstance(v, VFlt):
+                return [(s, VFlt(z3.Function("flt_abs", Flt, Flt)(v.t)))]
+            if isinstance(v, (VU, VOpaque)):
+                if self.is_decimal(v):
+                    return self.mk_decimal(s, "Decimal.__abs__", [v])
+                return self.opaque_call(s, "abs(ref)", [v], may_raise=("TypeError",), pure=True)
+            return [self.raised(s, "TypeError", "bad operand type for abs()")]
+        return self.with_typed(st, list(args), f)
 
     def b_id(self, st, args, kwargs):
         v = args[0]
@@ -600,6 +617,15 @@ class BuiltinMixin:
         seq = self.as_seq(st, v)
         if seq is not None:
             return [(st, st.alloc(HList(seq=seq)))]
+        if isinstance(v, (VU, VOpaque)):
+            out = []
+            for s, it in self.b_iter(st, [v], {}):
+                out.extend([(s, it)] if isinstance(it, Raised) else self.b_list(s, [it], {}))
+            return out
+        if isinstance(v, VStr):
+            chars = z3.Function("str_chars", S, SeqU)(v.t)
+            st.assume(z3.Length(chars) == z3.Length(v.t))
+            return [(st, st.alloc(HList(seq=chars)))]
         raise Unsupported(f"list() of {type(v).__name__}")
 
     def b_tuple(self, st, args, kwargs):
@@ -670,9 +696,16 @@ class BuiltinMixin:
 
     def b_range(self, st, args, kwargs):
         vals = [concrete(a) for a in args]
-        if all(ok for ok, _ in vals):
+        if all(ok for ok, _ in vals) and len(vals) <= 2 and all(isinstance(p, int) and abs(p) < 64 for _, p in vals):
             return [(st, st.alloc(HList(items=[const(i) for i in range(*[p for _, p in vals])])))]
-        raise Unsupported("range with symbolic bounds")
+        terms = [self.num_term(a) for a in args]
+        if any(t is None for t in terms):
+            return [self.raised(st, "TypeError", "range() integer argument expected")]
+        if len(terms) == 1:
+            return [(st, VRange(z3.IntVal(0), terms[0]))]
+        if len(terms) == 2:
+            return [(st, VRange(terms[0], terms[1]))]
+        raise Unsupported("range with step")
 
     def b_itertools_islice(self, st, args, kwargs):
         """islice(it, start, stop): ValueError unless start/stop are None or 0 <= x <= maxsize"""
@@ -792,8 +825,10 @@ class BuiltinMixin:
     # ------------------------------------------------------------ str methods
 
     def _s(self, v):
+        if isinstance(v, VConst) and isinstance(v.py, tuple) and v.py and v.py[0] == "bytes-of":
+            return v.py[1].t
         if not isinstance(v, VStr):
-            raise Unsupported("string method argument is not a str")
+            raise Unsupported(f"string method argument is not a str ({type(v).__name__})")
         return v.t
 
     def m_str_lower(self, st, sv, args, kwargs):
@@ -850,10 +885,18 @@ class BuiltinMixin:
         return [(st, VStr(parts[0] if len(parts) == 1 else z3.Concat(*parts)))]
 
     def m_str_replace(self, st, sv, args, kwargs):
+        if len(args) == 3:
+            n = self.num_term(args[2])
+            return [(st, VStr(z3.Function("str_replace_n", S, S, S, I, S)(sv.t, self._s(args[0]), self._s(args[1]), n)))]
         return [(st, VStr(z3.Function("str_replace_all", S, S, S, S)(sv.t, self._s(args[0]), self._s(args[1]))))]
 
     def m_str_format(self, st, sv, args, kwargs):
-        raise Unsupported("str.format")
+        boxed = []
+        for a in list(args) + list(kwargs.values()):
+            for _s2, r in self.to_str(st, a):
+                boxed.append(r.t if not isinstance(r, Raised) else z3.StringVal("?"))
+        f = z3.Function(f"str_format{len(boxed)}", S, *[S] * len(boxed), S)
+        return [(st, VStr(f(sv.t, *boxed)))]
 
     def str_percent(self, st, fmt, arg):
         """printf-style formatting: see C26; modelled as uninterpreted with a wellformedness
@@ -1018,6 +1061,214 @@ class BuiltinMixin:
         if not h.items:
             return [self.raised(st, "IndexError", "pop from an empty deque")]
         return [(st, h.items.pop())]
+
+    # ------------------------------------------------------------ math / decimal (DESIGN 3)
+
+    def _ceil_like(self, st, args, name):
+        (v,) = args
+        n = self.num_term(v)
+        if n is not None:
+            return [(st, VInt(n))]
+        if isinstance(v, VFlt):
+            out = []
+            for s, nan in self.branch(st, flt_is_nan(v.t)):
+                if nan:
+                    out.append(self.raised(s, "ValueError", "cannot convert float NaN to integer"))
+                    continue
+                for s2, inf in self.branch(s, flt_is_inf(v.t)):
+                    if inf:
+                        out.append(self.raised(s2, "OverflowError", "cannot convert float infinity to integer"))
+                    else:
+                        out.append((s2, VInt(z3.Function("flt_" + name, Flt, I)(v.t))))
+            return out
+        if isinstance(v, (VU, VOpaque)):
+            out = []
+            for s, tv in self.split_tags(st, v):
+                if isinstance(tv, (VU, VOpaque)):
+                    if self.is_decimal(tv):
+                        out.extend(self.opaque_call(s, f"Decimal.__{name}__", [tv], may_raise=("InvalidOperation", "OverflowError", "ValueError"), pure=True))
+                    else:
+                        out.extend(self.opaque_call(s, f"math.{name}(ref)", [tv], may_raise=("TypeError",), pure=True))
+                else:
+                    out.extend(self._ceil_like(s, [tv], name))
+            return out
+        return [self.raised(st, "TypeError", f"must be real number")]
+
+    def b_operator_getitem(self, st, args, kwargs):
+        return self.get_item(st, args[0], args[1])
+
+    def b_math_ceil(self, st, args, kwargs):
+        return self._ceil_like(st, args, "ceil")
+
+    def b_math_floor(self, st, args, kwargs):
+        return self._ceil_like(st, args, "floor")
+
+    def b_round(self, st, args, kwargs):
+        if len(args) == 1 or isinstance(args[1], VNone):
+            return self._ceil_like(st, args[:1], "round")
+        v, nd = args
+        out = []
+        for s, ndv in self.split_tags(st, nd):
+            if self.num_term(ndv) is None:
+                out.append(self.raised(s, "TypeError", "ndigits must be an integer"))
+                continue
+            for s2, tv in self.split_tags(s, v):
+                if isinstance(tv, (VInt, VBool)):
+                    out.append((s2, VInt(z3.Function("int_round", I, I, I)(self.num_term(tv), self.num_term(ndv)))))
+                elif isinstance(tv, VFlt):
+                    out.append((s2, VFlt(z3.Function("flt_roundn", Flt, I, Flt)(tv.t, self.num_term(ndv)))))
+                elif isinstance(tv, (VU, VOpaque)) and self.is_decimal(tv):
+                    out.extend(self.opaque_call(s2, "Decimal.__round__", [tv, ndv], may_raise=("InvalidOperation",), pure=True))
+                else:
+                    out.append(self.raised(s2, "TypeError", "type doesn't define __round__"))
+        return out
+
+    def is_decimal(self, v):
+        return z3.is_app(v.t) and v.t.get_id() in self.__dict__.setdefault("_decimals", set())
+
+    def mk_decimal(self, st, name, args, may_raise=()):
+        out = []
+        for s, r in self.opaque_call(st, name, args, may_raise=may_raise, pure=True):
+            if not isinstance(r, Raised):
+                s.assume(z3.And(U.is_ref(r.t), z3.Function("ref_isinstance$Decimal", U, B)(r.t)))
+                self.__dict__.setdefault("_decimals", set()).add(r.t.get_id())
+            out.append((s, r))
+        return out
+
+    def b_decimal_Decimal(self, st, args, kwargs):
+        (v,) = args
+        out = []
+        for s, tv in self.split_tags(st, v):
+            if isinstance(tv, VStr):
+                # malformed text -> InvalidOperation (an ArithmeticError, NOT a ValueError)
+                wf = z3.Function("decimal_wellformed", S, B)(tv.t)
+                for s2, ok in self.branch(s, wf):
+                    if ok:
+                        out.extend(self.mk_decimal(s2, "Decimal(str)", [tv]))
+                    else:
+                        out.append(self.raised(s2, "InvalidOperation", "ConversionSyntax"))
+            elif isinstance(tv, (VInt, VBool, VFlt)):
+                out.extend(self.mk_decimal(s, "Decimal(num)", [tv]))
+            elif isinstance(tv, (VU, VOpaque)) and self.is_decimal(tv):
+                out.append((s, tv))
+            else:
+                out.append(self.raised(s, "TypeError", "conversion to Decimal is not supported"))
+        return out
+
+    # ------------------------------------------------------------ markupsafe / html / re / base64
+
+    def b_markupsafe_soft_str(self, st, args, kwargs):
+        return self.to_str(st, args[0])
+
+    def b_markupsafe_Markup(self, st, args, kwargs):
+        if not args:
+            return [(st, VStr(z3.StringVal("")))]
+        return self.to_str(st, args[0])
+
+    def b_markupsafe_escape(self, st, args, kwargs):
+        return self.bind(self.to_str(st, args[0]), lambda s, v: [(s, VStr(z3.Function("html_escape", S, S)(v.t)))])
+
+    def b_html_escape(self, st, args, kwargs):
+        return [(st, VStr(z3.Function("html_escape", S, S)(self._s(args[0]))))]
+
+    def b_html_unescape(self, st, args, kwargs):
+        return [(st, VStr(z3.Function("html_unescape", S, S)(self._s(args[0]))))]
+
+    def m_str_unescape(self, st, sv, args, kwargs):
+        return [(st, VStr(z3.Function("html_unescape", S, S)(sv.t)))]
+
+    def m_regex_sub(self, st, rx, args, kwargs):
+        repl, text = args[0], args[1]
+        if not isinstance(text, VStr):
+            return [self.raised(st, "TypeError", "expected string or bytes-like object")]
+        f = z3.Function("re_sub$" + rx.py[2], S, S, S)
+        rt = repl.t if isinstance(repl, VStr) else z3.StringVal("<fn>")
+        return [(st, VStr(f(rt, text.t)))]
+
+    def m_regex_fullmatch(self, st, rx, args, kwargs):
+        f = z3.Function("re_fullmatch$" + rx.py[2], S, B)
+        return [(st, VBool(f(self._s(args[0]))))]
+
+    def m_regex_match(self, st, rx, args, kwargs):
+        f = z3.Function("re_match$" + rx.py[2], S, B)
+        return [(st, VBool(f(self._s(args[0]))))]
+
+    def _b64(self, st, args, name, decode):
+        (v,) = args
+        if not isinstance(v, VStr):
+            v = VStr(self._s(v))
+        if decode:
+            # b64decode: binascii.Error on malformed input; the result is bytes
+            out = []
+            for s, bad in self.branch(st, z3.Function("b64_malformed$" + name, S, B)(self._s(v) if isinstance(v, VStr) else z3.StringVal("?"))):
+                if bad:
+                    out.append(self.raised(s, "binascii.Error", "Incorrect padding"))
+                else:
+                    out.append((s, VConst(("bytes-decoded", name, v))))
+            return out
+        return [(st, VConst(("bytes-encoded", name, v)))]
+
+    def b_base64_b64encode(self, st, args, kwargs):
+        return self._b64(st, args, "std", False)
+
+    def b_base64_urlsafe_b64encode(self, st, args, kwargs):
+        return self._b64(st, args, "url", False)
+
+    def b_base64_b64decode(self, st, args, kwargs):
+        return self._b64(st, args, "std", True)
+
+    def b_base64_urlsafe_b64decode(self, st, args, kwargs):
+        return self._b64(st, args, "url", True)
+
+    def m_const_decode(self, st, cv, args, kwargs):
+        """bytes.decode(): arbitrary decoded bytes need not be UTF-8"""
+        if isinstance(cv.py, tuple) and cv.py[0] == "bytes-decoded":
+            src = cv.py[2]
+            out = []
+            bad = z3.Function("not_utf8$" + cv.py[1], S, B)(src.t)
+            for s, b_ in self.branch(st, bad):
+                if b_:
+                    out.append(self.raised(s, "UnicodeDecodeError", "invalid start byte"))
+                else:
+                    out.append((s, VStr(z3.Function("b64decoded$" + cv.py[1], S, S)(src.t))))
+            return out
+        if isinstance(cv.py, tuple) and cv.py[0] == "bytes-encoded":
+            return [(st, VStr(z3.Function("b64encoded$" + cv.py[1], S, S)(cv.py[2].t)))]
+        raise Unsupported("bytes.decode on this value")
+
+    def b_urllib_parse_quote_plus(self, st, args, kwargs):
+        return [(st, VStr(z3.Function("quote_plus", S, S)(self._s(args[0]))))]
+
+    def b_urllib_parse_unquote_plus(self, st, args, kwargs):
+        return [(st, VStr(z3.Function("unquote_plus", S, S)(self._s(args[0]))))]
+
+    def m_str_split(self, st, sv, args, kwargs):
+        sep = args[0] if args else NONE
+        if isinstance(sep, VStr):
+            out = []
+            for s, empty in self.branch(st, z3.Length(sep.t) == 0):
+                if empty:
+                    out.append(self.raised(s, "ValueError", "empty separator"))
+                else:
+                    out.append((s, s.alloc(HList(seq=z3.Function("str_split", S, S, SeqU)(sv.t, sep.t)))))
+            return out
+        return [(st, st.alloc(HList(seq=z3.Function("str_split_ws", S, SeqU)(sv.t))))]
+
+    def m_str_rpartition(self, st, sv, args, kwargs):
+        sep = self._s(args[0])
+        out = []
+        for s, empty in self.branch(st, z3.Length(sep) == 0):
+            if empty:
+                out.append(self.raised(s, "ValueError", "empty separator"))
+            else:
+                i = z3.Function("str_rindex", S, S, I)(sv.t, sep)
+                found = z3.Contains(sv.t, sep)
+                before = z3.If(found, z3.SubString(sv.t, 0, i), z3.StringVal(""))
+                mid = z3.If(found, sep, z3.StringVal(""))
+                after = z3.If(found, z3.SubString(sv.t, i + z3.Length(sep), z3.Length(sv.t)), sv.t)
+                s.assume(z3.Implies(found, z3.And(i >= 0, i + z3.Length(sep) <= z3.Length(sv.t))))
+                out.append((s, VTuple((VStr(before), VStr(mid), VStr(after)))))
+        return out
 
     # ------------------------------------------------------------ probes / io
 
